@@ -294,12 +294,57 @@ distinct = distinct (accessor, d, t-class); oracle = harness integer calendar: e
         }
     }
 
+    // The same header fields as the stream decoder delivers them: a message's date-time is a
+    // function of its own header, whatever message came before it in the stream (a header at
+    // exactly midnight, t = 0, is as stamped as any other).
+    {
+        use crate::enc::{self, MsgHeader};
+        let sample_days: Vec<u16> = (0..ctx.tier.pick(1_500u32, 20_000u32)).map(|_| rng.range(1, 65_535) as u16).collect();
+        let mut check_stream = |ctx: &mut Ctx, d: u16, t: u32| {
+            let c1 = *rng.pick(&[2u8, 3, 13, 18]);
+            let mut h1 = MsgHeader::realistic(&mut rng, c1);
+            h1.date = rng.range(2, 40_000) as u16;
+            h1.time = 1 + rng.below(86_399_999) as u32;
+            let c2 = *rng.pick(&[3u8, 13, 18, 2]);
+            let mut h2 = MsgHeader::realistic(&mut rng, c2);
+            h2.date = d;
+            h2.time = t;
+            let body1 = if h1.mtype == 2 { enc::encode_halfwords(&enc::gen_rda_status_in_domain(&mut rng)) } else { vec![0u8; 64] };
+            let body2 = if h2.mtype == 2 { enc::encode_halfwords(&enc::gen_rda_status_in_domain(&mut rng)) } else { vec![0u8; 64] };
+            let mut stream = enc::frame(&h1, &body1, 0);
+            stream.extend_from_slice(&enc::frame(&h2, &body2, 0));
+            ctx.obs.case(mix(mix(0x57, d as u64), t as u64));
+            let want = cal::icd_epoch_ms(d, t as u64);
+            let replay = json!({"accessor": "MessageHeader::date_time of the second message of a stream", "date": d, "time": t, "first_message": {"date": h1.date, "time": h1.time}});
+            match mon::catch(|| nexrad_decode::messages::decode_messages(&mut Cursor::new(&stream[..])).map(|v| v.get(1).map(|m| m.header().date_time().map(|x| x.timestamp_millis())))) {
+                Ok(Ok(Some(Some(got)))) if got == want => ctx.obs.count("stream_delivered_headers_exact", 1),
+                Ok(other) => ctx.obs.violation(
+                    "MessageHeader::date_time wrong-instant for a message inside a stream",
+                    format!("d={d} t={t} after a message stamped ({}, {}): expected {}, observed {:?}", h1.date, h1.time, want, other.map_err(|e| format!("{e:?}"))),
+                    replay,
+                ),
+                Err(p) => ctx.obs.violation(format!("decode_messages {}", p.signature()), p.message, replay),
+            }
+        };
+        for d in 1..=65_535u16 {
+            check_stream(ctx, d, 0);
+        }
+        for &d in &sample_days {
+            for &t in &ts {
+                check_stream(ctx, d, t);
+            }
+        }
+    }
+
     // History independence: an accessor is a function of its own (d, t) only.  Out-of-range and
     // in-range calls are interleaved on the same day count and across accessors.
     {
         let n = ctx.tier.pick(200_000u64, 2_000_000u64);
         let all: [Acc; 7] = [Acc::MessageHeader, Acc::RadialHeader, Acc::RadialModel, Acc::VolumeHeader, Acc::BypassMap, Acc::ClutterMapStatus, Acc::ClutterFilterMap];
         for i in 0..n {
+            if i % 16 == 1 {
+                crate::props::poison::run(i as u64);
+            }
             let d = match rng.below(4) {
                 0 => *rng.pick(&[1u16, 2, 19_999, 65_535]),
                 _ => rng.range(1, 65_535) as u16,
